@@ -134,6 +134,9 @@ def _run_proc(binpath, text, timeout, env=None):
         return 'timeout', out or '', ''
 
 
+MAX_BAD = 6
+
+
 def run_lines(binpath, lines, timeout=600, per_line_timeout=20, env=None):
     """Run request lines; returns a list of answers, one per line. A line that hangs or kills the
     process is answered HANG / ABORT (found by re-running with per-line flushing)."""
@@ -146,12 +149,20 @@ def run_lines(binpath, lines, timeout=600, per_line_timeout=20, env=None):
         answers.pop()
     if rc == 0 and len(answers) == len(lines):
         return answers
+    if len(lines) == 1:
+        return ['HANG' if rc == 'timeout' else 'ABORT']
     # something went wrong: isolate
     res = []
     i = 0
+    nbad = 0
     fenv = dict(env or {})
     fenv['HARNESS_FLUSH'] = '1'
     while i < len(lines):
+        if nbad >= MAX_BAD:
+            # enough hanging / aborting requests have been isolated to report; the rest of this
+            # share is not run (and not compared) rather than paying a timeout for each
+            res += ['NOTRUN'] * (len(lines) - i)
+            break
         chunk = lines[i:]
         rc, out, err = _run_proc(binpath, '\n'.join(chunk) + '\n', max(per_line_timeout, min(timeout, per_line_timeout * 4 + len(chunk) * 0.01)), fenv)
         got = out.split('\n')
@@ -169,12 +180,14 @@ def run_lines(binpath, lines, timeout=600, per_line_timeout=20, env=None):
                 break
             res += got[:good]
             res.append('HANG')
+            nbad += 1
         else:
             if good == len(chunk):
                 res += got
                 break
             res += got[:good]
             res.append('ABORT')
+            nbad += 1
         i += good + 1
     return res
 
@@ -311,12 +324,13 @@ def compare_plain(line, h_ans, m_ans):
 # shrinking (delta debugging over the op list of a session line)
 # ---------------------------------------------------------------------------------------------
 
-def shrink_session(line, still_fails, max_rounds=200):
+def shrink_session(line, still_fails, max_rounds=200, budget_s=150):
     hd = line.split(' :: ', 1)[0]
     ops = op_list(line)
     rounds = 0
     n = 2
-    while len(ops) >= 2 and rounds < max_rounds:
+    t_end = time.time() + budget_s
+    while len(ops) >= 2 and rounds < max_rounds and time.time() < t_end:
         size = max(1, len(ops) // n)
         reduced = False
         for i in range(0, len(ops), size):
@@ -472,9 +486,12 @@ def grep_gate():
 # ---------------------------------------------------------------------------------------------
 
 def write_evidence(prop, tier, seed, coverage, wall, violations, assumptions):
-    os.makedirs(os.path.join(ROOT, 'evidence'), exist_ok=True)
+    # runs against a scratch copy of the repository (seeded changes, DSI_REPO) must not overwrite
+    # the evidence of the real tree
+    evdir = os.path.join(ROOT, 'work', 'evidence-scratch') if os.environ.get('DSI_REPO') else os.path.join(ROOT, 'evidence')
+    os.makedirs(evdir, exist_ok=True)
     level = 'proof' if coverage.get('discharged', 0) >= 1 and coverage.get('discharged') == coverage.get('obligations') else 'exploration'
     ev = dict(property_id=prop, tier=tier, seed=seed, level=level, coverage=coverage, assumptions=assumptions,
               wall_s=round(wall, 2), violations=violations)
-    with open(os.path.join(ROOT, 'evidence', prop + '.json'), 'w') as f:
+    with open(os.path.join(evdir, prop + '.json'), 'w') as f:
         json.dump(ev, f, indent=1)
